@@ -363,6 +363,72 @@ def _active(tree, choice):
   return out
 
 
+def part_incremental(task):
+  """A search space that is queried while it is being built must answer like one that was built in one go: every build
+  program over a small alphabet of steps is run twice - with all queries after every step, and with none - and the
+  answers at the end are compared (also on a deepcopy taken half way and completed afterwards)."""
+  import copy
+  from vizier import pyvizier as vz
+  vios, n, nontriv = {}, 0, 0
+  STEPS = {
+      'F': lambda ss: ss.root.add_float_param('f', 0.0, 1.0),
+      'M': lambda ss: ss.root.add_categorical_param('m', ['a', 'b']),
+      'I': lambda ss: ss.root.add_int_param('i', 0, 2),
+      'Ck': lambda ss: ss.root.select('m', ['a']).add_int_param('k', 0, 1),
+      'Cflag': lambda ss: ss.root.select('m').select_values(['b']).add_bool_param('flag'),
+      'Cdeep': lambda ss: ss.root.select('i', [1]).add_float_param('deep', 0.0, 1.0),
+      'Pf': lambda ss: ss.pop('f'),
+  }
+  PROBES = [{}, {'f': 0.5}, {'m': 'a'}, {'f': 0.5, 'm': 'a'}, {'f': 0.5, 'm': 'b'}, {'f': 0.5, 'm': 'a', 'k': 1}, {'m': 'a', 'k': 1}, {'m': 'b', 'flag': 'True'},
+            {'f': 0.5, 'm': 'b', 'flag': 'True'}, {'f': 0.5, 'm': 'a', 'i': 1}, {'f': 0.5, 'm': 'a', 'k': 1, 'i': 1, 'deep': 0.5}, {'i': 1, 'deep': 0.5}, {'i': 0}]
+
+  def query(ss):
+    out = []
+    try:
+      out.append(('is_conditional', ss.is_conditional))
+    except Exception as e:  # pylint: disable=broad-except
+      out.append(('is_conditional', type(e).__name__))
+    try:
+      out.append(('names', tuple(sorted(pc.name for pc in ss.parameters))))
+    except Exception as e:  # pylint: disable=broad-except
+      out.append(('names', type(e).__name__))
+    for p in PROBES:
+      try:
+        out.append((repr(p), ss.contains(vz.ParameterDict(p))))
+      except Exception as e:  # pylint: disable=broad-except
+        out.append((repr(p), type(e).__name__))
+    return out
+
+  def run(prog, query_after, copy_at=None):
+    ss = vz.SearchSpace()
+    for j, st in enumerate(prog):
+      if copy_at == j:
+        ss = copy.deepcopy(ss)
+      try:
+        STEPS[st](ss)
+      except Exception as e:  # pylint: disable=broad-except
+        return ('build-raises', st, type(e).__name__)
+      if query_after:
+        query(ss)
+    return query(ss)
+
+  progs = [p for L in range(1, 5) for p in itertools.permutations(STEPS, L)]
+  for prog in progs:
+    n += 1
+    plain = run(prog, False)
+    if isinstance(plain, tuple):
+      continue          # the program itself is refused (child under a missing parent, ...): nothing to compare
+    nontriv += 1
+    variants = [('queried-after-every-step', run(prog, True))] + [('queried, deep-copied before step %d' % j, run(prog, True, copy_at=j)) for j in range(1, len(prog))]
+    for label, got in variants:
+      if got != plain:
+        diff = [(a, b) for a, b in zip(plain, got) if a != b] if not isinstance(got, tuple) else got
+        sig = 'C16|queries-change-later-answers|%s' % ('is_conditional' if any(x[0][0] == 'is_conditional' for x in diff if isinstance(x, tuple) and isinstance(x[0], tuple)) else 'contains')
+        vios.setdefault(sig, {'sig': sig, 'desc': 'build program %s: the space %s answers %s, the same space built without intermediate queries answers %s' % (
+            list(prog), label, [b for a, b in diff][:4] if not isinstance(got, tuple) else got, [a for a, b in diff][:4] if not isinstance(got, tuple) else '...'), 'case': {'part': 'I', 'prog': list(prog)}})
+  return {'n': n, 'nontrivial': nontriv, 'violations': list(vios.values())}
+
+
 def part_walk(task):
   from vizier._src.pyvizier.shared import parameter_iterators as pi
   vios, n, nontriv = {}, 0, 0
@@ -441,7 +507,7 @@ def run(ctx):
   picks = [(a,) for a in names] + [(a, b) for a, b in itertools.combinations(['double[0,1]', 'int[0,2]', 'disc[1,2.5]', 'cat[a,1]', 'bool'], 2)]
   if not ctx.quick:
     picks += list(itertools.combinations(['double[0,1]', 'int[0,2]', 'disc[1,2.5]', 'cat[a,1]', 'bool'], 3))
-  tasks = [('part_member', {}), ('part_builders', {}), ('part_walk', {}), ('part_add_trial', {'backends': ['ram'] if ctx.quick else ['ram', 'sqlmem']})]
+  tasks = [('part_member', {}), ('part_builders', {}), ('part_walk', {}), ('part_incremental', {}), ('part_add_trial', {'backends': ['ram'] if ctx.quick else ['ram', 'sqlmem']})]
   for i in range(0, len(picks), 3):
     tasks.append(('part_space', {'picks': picks[i:i + 3]}))
   tot = nontriv = 0
@@ -463,7 +529,7 @@ def run(ctx):
 
 
 def replay(case, ctx):
-  fn = {'M': part_member, 'S': None, 'B': part_builders, 'W': part_walk, 'A': None}.get(case.get('part'))
+  fn = {'M': part_member, 'S': None, 'B': part_builders, 'W': part_walk, 'A': None, 'I': part_incremental}.get(case.get('part'))
   if fn is None:
     return []
   return fn({})['violations']
